@@ -295,9 +295,24 @@ def alpha_strings(A, seed, count, maxlen, low=()):
             pr = rng.choice((0.15, 0.3, 0.45))
             pb = rng.choice((0.05, 0.15, 0.3))
             w = []
+            if rng.random() < 0.3:
+                # ... after a hundred or so small rings, so that the tail is written in the regime where
+                # the SMILES writer has run out of fresh two-digit ring numbers and reuses released ones
+                a = rng.choice([x for x in ("[C]", "[C]", "[Si]", "[S]", "[P]") if x in Aset] or atoms[:1])
+                small_ring = rng.choice(([a, a, a, "[Ring1]", "[Ring1]"], [a, a, a, "[Ring1]", "[Ring1]"],
+                                         [a, a, a, a, "[Ring1]", "[Ring2]"], [a, "[Branch1]", "[Branch1]", a, a, "[Ring1]", "[Ring1]"]))
+                w += small_ring * rng.choice((97, 98, 99, 100, 104, 120))
+                L += len(w)
+            pc = rng.choice((0.0, 0.05, 0.15))
+            roomy = [x for x in ("[S]", "[P]", "[Si]", "[C]", "[=S]", "[=P]") if x in Aset] or atoms
             while len(w) < L:
                 t = rng.random()
-                if t < pr and rings:
+                if t > 1.0 - pc and rings and "[Branch1]" in Aset:
+                    # an atom whose branch closes a ring back onto it, and which then closes a ring of
+                    # its own: two ring digits on one atom, one opening and one closing, any bond orders
+                    y, x = rng.choice(roomy), rng.choice(atoms)
+                    w += [y, "[Branch1]", "[Branch1]", x, x, rng.choice(rings), "[Ring1]", rng.choice(rings), rng.choice(small)]
+                elif t < pr and rings:
                     w.append(rng.choice(rings))
                     w.append(rng.choice(small))
                 elif t < pr + pb and branches:
@@ -501,6 +516,7 @@ ORACLE_PROPS = {
     "nonstrict_raises_molgen": {"C06": None},
     "strict_eq_nonstrict":     {"C06": None},
     "nonstrict_table_indep":   {"C06": None},
+    "respelt_eq_original":     {"C06": None},
     "oracles_agree":           {"C11": None},
     "history_eq_cold_interpreter": {"C11": None},
 }
@@ -557,6 +573,7 @@ class Verifier:
         last_fault = None
         from_import = True
         by_id = {op.get("id", i): op["op"] for i, op in enumerate(ops)}
+        res_by_id = {op.get("id", i): rec["r"] for i, (op, rec) in enumerate(zip(ops, log))}
 
         def ask(K, call):
             a = self.oracle.query(K, call, warn_mode)
@@ -566,9 +583,11 @@ class Verifier:
                     out.append(Violation("oracles_agree", idx, {"call": list(call), "a": a[:2], "b": b[:2]}))
             return a
 
+        changes_at = {}
         for idx, (op, rec) in enumerate(zip(ops, log)):
             k = op["op"]
             r = rec["r"]
+            changes_at[op.get("id", idx)] = model.changes if model.known else -1 - idx
             if k == "set_from":
                 if r[0] == "skip":
                     continue
@@ -697,6 +716,12 @@ class Verifier:
                 call = ("encode", op["s"], op["strict"], op["attribute"])
                 if r[0] == "err":
                     probe("fault_failing_encode:" + str(r[1]))
+                if "same_as" in op and op["same_as"] in res_by_id and changes_at.get(op["same_as"]) == model.changes:
+                    # two spellings of one molecule (bond symbol on either or both ends of a ring closure)
+                    first = res_by_id[op["same_as"]]
+                    probe("respelt_ring_symbol" + (":accepted" if r[0] == "ok" else ":rejected"))
+                    if tuple(r[:2]) != tuple(first[:2]):
+                        out.append(Violation("respelt_eq_original", idx, {"first": first[:2], "second": r[:2], "s": op["s"]}))
                 if not op["strict"]:
                     want = ask(None, call)
                     probe("checked:encode_eq_oracle")
